@@ -852,14 +852,14 @@ func (r Stack) Reset() {
 reset is a private method called by [Stack.Reset].
 */
 func (r *stack) reset() {
+	r.lock()
+	defer r.unlock()
+
 	if r.ulen() == 0 {
 		return
 	}
 
 	cfg, _ := r.config()
-
-	r.lock()
-	defer r.unlock()
 
 	// keep only the config slice; nil slices (which
 	// cannot be addressed by index, and therefore not
